@@ -100,7 +100,7 @@ def split_delay(tape, total, parts):
 def gen_e1(tape, tier="quick", *, allow_pull=True, allow_cycles=True, allow_delay_push=True,
            allow_omission=True, allow_finish=False, allow_offsets=True, allow_faults=True,
            allow_delay=True, allow_buffering=True, allow_integrating=True, max_sim=5,
-           cycle_regime=None, pull_fanout=True, cycle_chance=(1, 3), adapter_fanout=True, allow_sinks=True, allow_static=True):
+           cycle_regime=None, pull_fanout=True, cycle_chance=(1, 3), adapter_fanout=True, allow_sinks=True, allow_static=True, allow_real=True):
     n_sim = tape.weighted([(2, 5), (3, 6), (4, 3), (5, 2)])
     n_sim = min(n_sim, max_sim)
     n_pull = tape.weighted([(0, 6), (1, 3), (2, 1)]) if allow_pull else 0
@@ -348,6 +348,31 @@ def gen_e1(tape, tier="quick", *, allow_pull=True, allow_cycles=True, allow_dela
                     a["x"] = a.get("x", 0) + extra
                     break
             cy["need"] = need2
+
+    # real library components in place of stubs where the scenario allows it
+    if allow_real:
+        for ci, c in enumerate(comps):
+            if c["kind"] != "sim" or len(c["steps"]) != 1 or c.get("push_first") or c.get("next_none") or \
+                    c.get("finish_at") is not None or c.get("cache") is False:
+                continue
+            if any(o.get("nopush") for o in c["outputs"]) or any(i.get("dup") or i.get("skip") or i.get("static")
+                                                                  for i in c["inputs"]):
+                continue
+            if not tape.chance(1, 3):
+                continue
+            if c["inputs"] and c["outputs"]:
+                if cycles:
+                    continue          # CallbackComponent computes its initial output from its initial pulls
+                impl = "cbcomp"
+            elif c["outputs"]:
+                impl = "cbgen"
+            elif c["inputs"]:
+                impl = "dbgcons"
+            else:
+                continue
+            for i in c["inputs"]:
+                i["initial_pull"] = True
+            c["impl"] = impl
 
     t0 = min(c["start"] for c in comps if c["kind"] == "sim")
     span = tape.choice([3, 7, 12, 20, 24, 36, 48])
